@@ -100,6 +100,8 @@ type simCluster struct {
 	dialHold    chan struct{}
 	zkHold      chan struct{}            // LocateResource waits for it to be closed
 	slowNew     time.Duration            // the connection factory takes this long
+	closeHold   chan struct{}            // non-nil: Close of a connection returns only when it is closed (released by the scenario)
+	closeParked int                      // Close calls waiting for closeHold
 	scanWalk    bool                     // user-table scans walk region by region (one row per region), forward or reversed
 	scanRows    bool                     // user-table scans return one row per request and keep the region scanner open
 	probeHold   map[string]chan struct{} // region probes to this address are answered (ok) only when released
@@ -198,6 +200,15 @@ func (s *simConn) Dial(ctx context.Context) error {
 }
 
 func (s *simConn) Close() {
+	s.c.mu.Lock()
+	ch := s.c.closeHold
+	if ch != nil {
+		s.c.closeParked++
+	}
+	s.c.mu.Unlock()
+	if ch != nil {
+		<-ch // a connection that takes its time to close (lingering socket, TLS shutdown)
+	}
 	if atomic.CompareAndSwapInt32(&s.closed, 0, 1) {
 		s.c.mu.Lock()
 		s.c.seq++
